@@ -37,6 +37,8 @@ def run(tier, seed):
         for s2 in range(nk):
             jobs.append(Job("c07", "optim", "spqlios-fma", {"mode": "keyset", "lambda": lam, "seed": core.splitmix(seed, 20 + s2) % 100000, "count": 20000 if q else 200000}, label="keyset %d #%d" % (lam, s2)))
         jobs.append(Job("c07", "optim", "spqlios-fma", {"mode": "keyset_seed", "lambda": lam, "seed": seed + 5}, label="keyset_seed %d" % lam))
+        # key-generation history: a key set of the *other* parameter set is generated first in the same process
+        jobs.append(Job("c07", "optim", "spqlios-fma", {"mode": "keyset", "lambda": lam, "first": 208 - lam, "seed": core.splitmix(seed, 90 + lam) % 100000, "count": 20000}, label="keyset %d after %d" % (lam, 208 - lam)))
     jobs.append(Job("c07", "optim", "fftw", {"mode": "keyset", "lambda": 128, "seed": seed % 1000 + 3, "bkrows": 100}, label="keyset fftw"))
     jobs.append(Job("c07", "debug", "spqlios-fma", {"mode": "keyset", "lambda": 80, "seed": seed % 1000 + 4, "bkrows": 60, "count": 5000}, label="keyset debug"))
     jobs.append(Job("c07", "optim", "spqlios-fma", {"mode": "keys", "count": 256 if q else 4096, "seed": seed}, label="keys"))
@@ -125,10 +127,10 @@ def run(tier, seed):
     res.exhaustive_nontrivial = max(res.exhaustive_nontrivial, 0)
     res.rule = ("E5: exact errors (phase - message, integer arithmetic with the secret keys, no FFT in the oracle) of fresh LWE encryptions at every alpha = 2^-5..2^-30 (dimensions 1, 12, 40, 500, 630), TLWE polynomial / "
                 "constant and TGSW encryptions (N=1024, k in {1,2}, three back-ends), gate-API encryptions, every non-zero-digit row of the key-switching key and every coefficient of every bootstrapping-key row of generated "
-                "default key sets (both parameter sets, several seeds). Reference law = the implemented sampler, trunc-toward-zero(N(0,alpha^2) 2^32), whose exact discrete variance and kurtosis the driver computes; tests at 8 "
+                "default key sets (both parameter sets, several seeds, also after a key set of the other parameter set was generated in the same process). Reference law = the implemented sampler, trunc-toward-zero(N(0,alpha^2) 2^32), whose exact discrete variance and kurtosis the driver computes; tests at 8 "
                 "estimator standard deviations: variance two-sided (upper bound +1 unit^2 where b passes through the FFT product), mean, kurtosis, population mean of key-switching rows (recentring), digit-0 rows trivial, "
                 "chi-square of mask bytes / top bits, lag 1..8 correlation, distinct words, key entries in {0,1} and balanced. E1 rapidcheck (seeding): for generated histories of encryptions / key generations / raw sampler draws, "
-                "re-seeding with the same seed reproduces key and ciphertext bytes whatever ran before, a different seed differs, two encryptions of one message differ, re-seeding between two encryptions reproduces the first; "
+                "re-seeding with the same seed reproduces key and ciphertext bytes whatever ran before and whichever thread draws (seed on one thread, draw on another), a different seed differs, two encryptions of one message differ, re-seeding between two encryptions reproduces the first; "
                 "key-set generation twice with one seed is byte-identical. Non-trivial = a statistic over >= 1e4 samples with alpha > 0 (counted) or a seeding case with a non-empty history (hashed).")
     res.assumptions = ["8-sigma acceptance regions around the implemented sampler law (p < 1e-14 per statistic)", "heavy tails handled through the reference kurtosis"]
     return core.finish(res)
